@@ -16,6 +16,8 @@ PROP = dict(
     required_theorems=["Comdex.C12.owner_guard_blocks", "Comdex.C12.run_simple", "Comdex.C12.deliver_unchanged_of_error",
                        "Comdex.C12.position_handlers_owner_guarded", "Comdex.C12.ownerless_tight",
                        "Comdex.C12.nonowner_rejected_on_every_route", "Comdex.C12.owner_after_write_pinned",
+                       "Comdex.C12.position_consistency_guarded", "Comdex.C12.no_weak_consistency_guard",
+                       "Comdex.C12.consistency_rows_pinned",
                        "Comdex.C12.wasm_guards_expected", "Comdex.C12.wasm_authorized_iff_designated",
                        "Comdex.C12.admin_only_killswitch", "Comdex.C12.admin_guard_blocks",
                        "Comdex.C12.table_sizes", "Comdex.C12.handler_names_pinned", "Comdex.C12.every_handler_has_exit"],
@@ -36,8 +38,8 @@ META = dict(
     design_ref="DESIGN.md §5 C12",
     text="Kernel-checked: in the execution model (guards and writes in sequence, first failing guard returns, message cache) an owner "
          "/ admin guard anywhere on the way makes a non-owner's delivery fail with the state unchanged. Over the table regenerated from "
-         "/repo on every run: every one of the 58 MsgServer methods of vault, locker, lend, liquidity, auctionsV2, esm, liquidation, "
-         "liquidationsV2 that reads a position not keyed by the signer executes the owner comparison on every route to success (11 "
+         "/repo on every run: every one of the 62 MsgServer methods of vault, locker, lend, liquidity, auctionsV2, esm, liquidation, "
+         "liquidationsV2, auction that reads a position not keyed by the signer executes the owner comparison on every route to success (11 "
          "reviewed ownerless handlers listed and justified in Props/C12.lean); all 20 custom wasm handlers carry exactly the expected "
          "chain-id/contract guard; the kill switch is admin-only before any write. The harness delivers every position-naming message "
          "with non-owner signers and every custom message with wrong senders on the real app and requires error + empty store/bank diff.",
